@@ -308,6 +308,47 @@ theorem c12_congress_counts (C : Consts) (s : State ℚ) :
     (∀ order, (step Q C s (.endInterval order)).cur = 0) :=
   ⟨fun _ => rfl, fun gid n => observeN_cur s gid n, fun order => (updateRates_target C order s).2⟩
 
+/-! ## The driver's shortcut for large volumes -/
+
+theorem bumpFirst_zero {α : Type} (gid : Nat) (gs : List (Group α)) : bumpFirst gid 0 gs = gs := by
+  induction gs with
+  | nil => rfl
+  | cons g gs ih =>
+    unfold bumpFirst; split
+    · rename_i h; cases g; simp_all
+    · simp_all
+
+theorem bumpFirst_add {α : Type} (gid a b : Nat) (gs : List (Group α)) :
+    bumpFirst gid a (bumpFirst gid b gs) = bumpFirst gid (b + a) gs := by
+  induction gs with
+  | nil => rfl
+  | cons g gs ih =>
+    by_cases h : g.gid = gid
+    · simp [bumpFirst, h, Nat.add_assoc]
+    · simp [bumpFirst, h, ih]
+
+theorem observeGroups_twice {α : Type} (A : Arith α) (gid : Nat) (gs : List (Group α)) :
+    (observeGroups A gid (observeGroups A gid gs).1).1 = bumpFirst gid 1 (observeGroups A gid gs).1 := by
+  induction gs with
+  | nil => simp [observeGroups, bumpFirst]
+  | cons g gs ih =>
+    by_cases h : g.gid = gid
+    · simp [observeGroups, bumpFirst, h]
+    · simp [observeGroups, bumpFirst, h, ih]
+
+/-- `n` single observations of one group equal the bulk increment the driver uses. -/
+theorem c12_obsN_bulk {α : Type} (A : Arith α) (s : State α) (gid n : Nat) :
+    observeN A s gid n = observeBulk A s gid n := by
+  induction n generalizing s with
+  | zero => simp [observeN, observeBulk]
+  | succ n ih =>
+    rw [observeN, ih]
+    cases n with
+    | zero => simp [observeBulk, observe, bumpFirst_zero]
+    | succ n =>
+      simp only [observeBulk, observe, Nat.add_one_ne_zero, if_false, Nat.add_sub_cancel]
+      rw [observeGroups_twice, bumpFirst_add]
+      simp only [Nat.add_comm, Nat.add_left_comm]
 /-! ## Non-vacuity -/
 
 /-- `0.4f32 = 13421773 · 2^-25` is a rate the weight theorems apply to -/
@@ -332,3 +373,4 @@ end Sampling
 #print axioms Sampling.c12_congress_monotone
 #print axioms Sampling.c12_congress_avg_pos
 #print axioms Sampling.c12_congress_counts
+#print axioms Sampling.c12_obsN_bulk
